@@ -353,4 +353,23 @@ PROPS['C20'] = {
     'level_note': 'Trusted: Coq kernel, translator (loop-sampler split, static isinstance), view model of NumPy.',
 }
 
+C19_FUNCS = ['union_of_bboxes', 'get_random_crop_coords', 'random_crop', 'clamping_crop', 'bbox_crop', 'bbox_random_crop',
+             'crop_bbox_by_coords']
+PROPS['C19'] = {
+    'requires': C19_FUNCS, 'corr': corr_fn('C19', C19_FUNCS, 40, 1200), 'search': 'C19',
+    'trusted_base': GEOM_TRUSTED + [
+        'the parameter samplers of BBoxSafeRandomCrop / RandomCropNearBBox are translated with their random draws as oracle '
+        'parameters (random.random in [0,1), random.randint in its range); float arithmetic is modelled by exact rationals, '
+        'so draws for which a float start rounds to exactly 1.0 are covered by the closed interval [0,1] of the model'],
+    'assumptions': ['boxes are valid normalised boxes; 0 <= erosion_rate <= 1/2 (beyond that the eroded union can be empty)'],
+    'level_text': 'Theorems on regenerated code, for every value of the draws: union_of_bboxes reaches every box up to the '
+                  'erosion fraction of its own extent per axis; the BBoxSafeRandomCrop window lies inside the volume, has the '
+                  'sampled size (which is the shape of the returned image and the frame of the returned boxes) and trims every '
+                  'box by LESS THAN TWO voxels + erosion per face; the one-voxel bound of the property is refuted by a witness '
+                  '(open known finding); RandomCropNearBBox moves each face by at most round(extent * its own axis fraction), '
+                  'and image and boxes use the same clamped window. Explored: box sets touching the borders, sized variant, '
+                  'keypoints, labels.',
+    'level_note': 'Trusted: Coq kernel, translator (sampler back end), view model, exact-rational float model.',
+}
+
 NOT_CLAIMED = {}
